@@ -25,7 +25,7 @@ def validate_boundary(reference_intervals: ObjT, estimated_intervals: ObjT, trim
     raises(ValueError, when=not (valid_iv(reference_intervals) and valid_iv(estimated_intervals)))
 
 
-@assumed_contract("mir_eval.util.intervals_to_boundaries", props="C13", note="sorted distinct interval end points rounded to 5 decimals; bounded engine intervalsnative")
+@assumed_contract("mir_eval.util.intervals_to_boundaries", view=True, props="C13", note="opaque-interval view: the sorted distinct end points (the contract over real arrays is proved in contracts/intervals.py)")
 def intervals_to_boundaries(intervals: ObjT, q: Int = 5):
     ensures(n_bounds(intervals) >= 0)
     returns(array_of(n_bounds(intervals), lambda k: bound(intervals, k)))
